@@ -153,6 +153,13 @@ def ensure_harness(variant, name, sources, extra_cflags=(), extra_ldflags=(),
     return exe
 
 
+def ensure_thr(variant):
+    """the C13 stress program against a thread-safe library variant"""
+    extra = ["-DVF_RC"] if variant.endswith("-rc") else []
+    return ensure_harness(variant, "thr", ["thr.c"], extra_cflags=extra,
+                          wraps=["coap_lock_lock_func"])
+
+
 if __name__ == "__main__":
     t = time.time()
     for v in sys.argv[1:] or ["asan"]:
